@@ -295,7 +295,7 @@ def expected_files(d, goos, goarch, cgo, isdir, nrelease):
     """(set of names that must be magefiles, set of names the sentence does not decide)"""
     want, undecided = set(), set()
     for f in d["files"]:
-        if f["broken"] in ("badbuild", "multibuild") or f["pkg"] == "documentation":
+        if f["broken"] in ("badbuild", "multibuild", "dangling", "badheader") or f["pkg"] == "documentation":
             undecided.add(f["name"])
             continue
         if not candidate(f["name"]):
@@ -410,14 +410,14 @@ def run_unit(binp, envv, reqs):
 
 # ---------------------------------------------------------------- Coq terms
 def file_coq(f):
-    if f["broken"] in ("badbuild", "multibuild"):
+    if f["broken"] in ("badbuild", "multibuild", "dangling"):      # go/build fails on the file before it looks at its constraints
         h = "HBad"
     elif f["expr"] is None:
         h = "HNone"
     else:
         h = "(HBuild %s)" % expr_coq(f["expr"])
     return "{| f_name := %s; f_header := %s; f_pkg := %s; f_parse_ok := %s |}" % (
-        coq_str(f["name"]), h, coq_str(f["pkg"]), coq_bool(f["broken"] != "parseerr"))
+        coq_str(f["name"]), h, coq_str(f["pkg"]), coq_bool(f["broken"] not in ("parseerr", "badheader")))
 
 
 def environ_coq(e):
@@ -621,6 +621,7 @@ def run_e2e(ctx, host, nrelease, release, tooltags):
         j["mutations"] = [tuple(m) for m in j.get("mutations", [])]
         jobs = [j]
 
+    HF0 = {"MAGEFILE_HASHFAST": "1"}
     # a stand-in for the go tool (given with -gocmd): records the platform variables every go command is given, can fail the
     # k-th call of a subcommand with a message (C10_GOPLAN = "sub:k:message;..."), and otherwise runs the real go tool
     gowrap = os.path.join(ctx.tmp, "gowrap.sh")
@@ -673,6 +674,53 @@ exec go "$@"
             {"top": ordinary(), "sub": None, "links": {"files": ["magefile.go", "lib.go"]}},                                       # magefiles that are symlinks
             {"top": D([]), "sub": subdir(), "links": {"files": ["magefiles/plain.go", "magefiles/targets.go"]}},
         ]
+        # -compile to one output path over a history: edits and platform flags between the steps, default and hash mode; the
+        # file must always be what the CURRENT selection gives for the REQUESTED platform
+        X = "windows" if host[0] != "windows" else "linux"
+        for n in range(2 if ctx.quick else 6):
+            top = D([e2e_file("magefile.go", M, "Build"), e2e_file("tasks_%s.go" % X, M, "Wintasks"), e2e_file("lib.go", None, "Leaked"),
+                     e2e_file("host.go", ("and", M, ("tag", host[0])), "Hosttasks")])
+            hf = HF0 if n % 2 else {}
+            hist = [{"name": "compile-host", "what": "compile", "cflags": ["", ""], "env": hf},
+                    {"name": "compile-host-after-change", "what": "compile", "cflags": ["", ""], "env": hf, "mutate": True},
+                    {"name": "compile-%s" % X, "what": "compile", "cflags": [X, host[1]], "env": hf},
+                    {"name": "compile-%s-after-change" % X, "what": "compile", "cflags": [X, ""], "env": hf, "mutate": True},
+                    {"name": "compile-host-again", "what": "compile", "cflags": ["", ""], "env": hf}]
+            muts = [("top", e2e_file("zextra.go", M, "Zextra")), ("top", e2e_file("tasks_%s.go" % X, ("not", M), "Wintasks"))]
+            if n % 3 == 2:
+                muts = [("top", e2e_file("host.go", ("and", M, ("tag", X)), "Hosttasks")), ("top", e2e_file("lib.go", M, "Leaked"))]
+            jobs.append({"kind": "chist", "top": top, "sub": None, "env": envs[n % len(envs)], "plat": host, "flags": ("", ""), "history": hist, "mutations": muts,
+                         "gocmd": n % 2 == 0, "goplan": ""})
+        # the content of the directory ITSELF next to a magefiles/ folder: entries on which go/build fails or that it skips
+        def bf(name, kind, ident="Broken"):
+            text = {"badbuild": "//go:build linux &&\n\npackage main\n\nfunc %s() {}\n", "badheader": "//go:build mage\n\npackag main\n\nfunc %s() {}\n",
+                    "parseerr": "package main\n\nimport 5\n\nfunc %s() {}\n", "parseerr-ignored": "//go:build ignore\n\npackage main\n\nimport 5\n\nfunc %s() {}\n",
+                    "dangling": "%s"}[kind] % ident
+            expr = {"badheader": M, "parseerr-ignored": ("tag", "ignore")}.get(kind)
+            return {"name": name, "form": "gobuild" if expr else "none", "expr": expr, "pkg": "main", "broken": "parseerr" if kind == "parseerr-ignored" else kind, "ident": ident, "text": text}
+        def otherpkg(name, ident):
+            f = e2e_file(name, None, ident)
+            return dict(f, pkg="other", text=f["text"].replace("package main", "package other", 1))
+        lib = lambda: e2e_file("lib.go", None, "Leaked")
+        own = lambda: e2e_file("magefile.go", M, "Build")
+        parent_jobs = [
+            (D([lib(), bf("zz_generated.go", "dangling")]), {"zz_generated.go": "dangling"}),
+            (D([own(), bf("zz_generated.go", "dangling")]), {"zz_generated.go": "dangling"}),        # the probe fails: magefiles/ although the directory has a magefile
+            (D([lib(), bf("bad.go", "badbuild")]), {}),
+            (D([own(), bf("bad_%s.go" % other_os, "badbuild")]), {}),                                # never read for this platform: the directory's magefile wins
+            (D([lib(), bf("hdr.go", "badheader")]), {}),
+            (D([lib(), bf("imp.go", "parseerr")]), {}),
+            (D([own(), bf("imp.go", "parseerr-ignored")]), {}),                                      # constraints exclude it: no error
+            (D([lib(), otherpkg("other.go", "Otherpkg")]), {}),                                      # two packages, untagged: tolerated, nothing tagged
+            (D([own(), otherpkg("other.go", "Otherpkg")]), {}),
+            (D([lib()]), {"x.go": "dir"}),
+            (D([own()]), {"x.go": "dir", "zz.go": "dir"}),
+        ]
+        if os.geteuid() != 0:
+            parent_jobs.append((D([lib(), dict(e2e_file("secret.go", M, "Secret"), broken="dangling")]), {"secret.go": "unreadable"}))
+        for n, (top, extras) in enumerate(parent_jobs):
+            jobs.append({"kind": "parent", "top": top, "sub": D([e2e_file("targets.go", M, "Sub"), e2e_file("plain.go", None, "Plain")]), "extras": extras,
+                         "env": envs[n % len(envs)], "plat": host, "flags": ("", ""), "gocmd": n % 3 == 0, "goplan": ""})
         for n, lj in enumerate(link_jobs):
             jobs.append(dict(lj, kind="links", env=envs[n % len(envs)], plat=host, flags=("", ""), gocmd=(n % 2 == 0), goplan=""))
 
@@ -685,10 +733,27 @@ exec go "$@"
             tgt["files"] = sorted([x for x in tgt["files"] if x["name"] != f["name"]] + [f], key=lambda x: x["name"].encode())
         return top, sub
 
+    def probe_fails(top, plat):
+        """listing the directory itself fails (measured on the unchanged tree, and what Model/Constraints.v says): a .go entry that
+        is not hidden and whose name suffix fits the platform cannot be opened / has an unparsable //go:build line; or it has a
+        syntax error in its header and its constraints hold with or without the mage tag.  Then magefiles/ is used."""
+        for f in top["files"]:
+            n = f["name"]
+            if not f["broken"] or not n.endswith(".go") or n.startswith(("_", ".")):
+                continue
+            o, a = name_constraints(n)
+            if (o is not None and not (o == plat[0] or ALSO.get(plat[0]) == o)) or (a is not None and a != plat[1]):
+                continue
+            if f["broken"] in ("badbuild", "multibuild", "dangling"):
+                return True
+            if satisfied(f, plat[0], plat[1], False, True, nrelease) or satisfied(f, plat[0], plat[1], False, False, nrelease):
+                return True
+        return False
+
     def expect(top, sub, plat, top_named=False):
         """the property sentence for a layout: (magefiles/ used?, {file name: target name} of the magefiles).
         top_named: mage was pointed at a directory SPELLED .../magefiles (-d), which is then a magefiles directory itself"""
-        use_sub = sub is not None and not exp(top, plat, False)
+        use_sub = sub is not None and (probe_fails(top, plat) or not exp(top, plat, False))
         d = sub if use_sub else top
         want = exp(d, plat, use_sub or top_named)
         return use_sub, {f["name"]: f["ident"].lower() for f in d["files"] if f["name"] in want}
@@ -752,23 +817,18 @@ exec go "$@"
             logn[0] += 1
             return os.path.join(os.path.dirname(proj), "golog.%d" % logn[0])
         top_named = bool(j.get("top_named"))
-        if j["kind"] == "compile":
-            out = os.path.join(proj, "out.bin")
-            args = ["-compile", out]
-            if j["flags"][0]:
-                args += ["-goos", j["flags"][0]]
-            if j["flags"][1]:
-                args += ["-goarch", j["flags"][1]]
-            r = mage(proj, cache, args, j["env"], timeout=600, j=j, log=golog())
-            # which files were compiled in: the binary's function-name table holds main.<Target> of every file used
-            # (the targets are //go:noinline and reachable from the generated main); no wording of any message is read
-            blob = open(out, "rb").read() if os.path.exists(out) else b""
-            def compiled(d):
-                return sorted(f["name"] for f in d["files"] if re.search(rb"main\." + f["ident"].encode() + rb"(?![A-Za-z0-9_])", blob))
-            res["steps"].append({"step": "compile", "rc": r["rc"], "files": compiled(j["top"]) if blob else None,
-                                 "subfiles": compiled(j["sub"]) if blob and j["sub"] is not None else [], "magic": blob[:4].hex() if blob else None,
-                                 "go_calls": r["go_calls"], "raw": {"stdout": r["out"][-800:], "stderr": r["err"][-800:]}})
-            return res
+        for rel, kind in (j.get("extras") or {}).items():      # entries of the directory that are not (good) Go files
+            pth = os.path.join(proj, rel)
+            if kind == "dangling":
+                if os.path.lexists(pth):
+                    os.remove(pth)
+                os.symlink(os.path.join(proj, "no-such-file.go"), pth)
+            elif kind == "dir":
+                os.makedirs(pth, exist_ok=True)
+                with open(os.path.join(pth, "inside.go"), "w") as fh:
+                    fh.write("//go:build mage\n\npackage main\n\nfunc Inside() {}\n")
+            elif kind == "unreadable":
+                os.chmod(pth, 0)
         nmut = 0
         for st in j["history"]:
             if st.get("mutate"):
@@ -777,9 +837,28 @@ exec go "$@"
                 with open(os.path.join(proj, "magefiles" if where == "sub" else "", f["name"]), "w") as fh:
                     fh.write(f["text"])
             top, sub = layout_at(j, nmut)
-            use_sub, want = expect(top, sub, j["plat"], top_named)
             env = dict(j["env"], **st.get("env", {}))
             o = {"step": st["name"], "mutations": nmut}
+            if st["what"] == "compile":
+                # -compile to the SAME output path at every step; which files were compiled in: the binary's function-name table
+                # holds main.<Target> of every file used (the targets are //go:noinline and reachable from the generated main)
+                cflags = tuple(st.get("cflags") or j["flags"])
+                plat = forced_platform(host, *cflags)
+                out = os.path.join(proj, "out.bin")
+                args = ["-compile", out] + (["-goos", cflags[0]] if cflags[0] else []) + (["-goarch", cflags[1]] if cflags[1] else [])
+                r = mage(proj, cache, args, env, timeout=600, j=j, log=golog())
+                blob = open(out, "rb").read() if os.path.exists(out) else b""
+                def compiled(d):
+                    return sorted(f["name"] for f in d["files"] if re.search(rb"main\." + f["ident"].encode() + rb"(?![A-Za-z0-9_])", blob))
+                o.update({"rc": r["rc"], "cflags": list(cflags), "plat": list(plat), "files": compiled(top) if blob else None,
+                          "subfiles": compiled(sub) if blob and sub is not None else [], "magic": blob[:4].hex() if blob else None,
+                          "go_calls": r["go_calls"], "raw": {"stdout": r["out"][-800:], "stderr": r["err"][-800:]}})
+                if blob and r["rc"] == 0 and plat == tuple(host):
+                    r2 = mg.run(proj, ["-l"], env=j["env"], exe=out, cache=cache)      # a host binary can say itself what it offers
+                    o["listed"] = sorted(projlib.parse_list(r2["out"])["targets"]) if r2["rc"] == 0 else None
+                res["steps"].append(o)
+                continue
+            use_sub, want = expect(top, sub, j["plat"], top_named)
             if st["what"] == "list" or not want:
                 r = mage(proj, cache, st.get("flags", []) + ["-l"], env, j=j, log=golog())
                 o["targets"] = sorted(projlib.parse_list(r["out"])["targets"])
@@ -799,7 +878,8 @@ exec go "$@"
         items = []
         for o in res["steps"]:
             top, sub = layout_at(j, o.get("mutations", 0))
-            plat = j["plat"]
+            plat = tuple(o.get("plat") or j["plat"])
+            cflags = tuple(o.get("cflags") or j["flags"])
             top_named = bool(j.get("top_named"))
             use_sub, want = expect(top, sub, plat, top_named)
             where = "magefiles subdirectory" if use_sub else "directory"
@@ -812,8 +892,8 @@ exec go "$@"
                 got = (call[1], call[2])
                 if (call[0] == "build" and got != tuple(plat)) or (call[0] != "build" and got not in (tuple(plat), tuple(host))):
                     return at + "`go %s` was run with GOOS=%s GOARCH=%s; the magefiles were listed for %s/%s (flags %s, caller's environment %s); all go calls: %s" % (
-                        call[0], call[1], call[2], plat[0], plat[1], list(j["flags"]), j["env"], [c[:3] for c in o["go_calls"]]), items
-            if o["step"] == "compile":
+                        call[0], call[1], call[2], plat[0], plat[1], list(cflags), j["env"], [c[:3] for c in o["go_calls"]]), items
+            if "magic" in o:
                 if not want:
                     if o["rc"] == 0:
                         return at + "no file of the project requires the mage tag for %s/%s, but -compile succeeded using %s / %s" % (plat[0], plat[1], o["files"], o["subfiles"]), items
@@ -822,13 +902,15 @@ exec go "$@"
                     return at + "mage failed (rc=%d): %s" % (o["rc"], o["raw"]["stderr"][-400:]), items
                 magic = {"windows": "4d5a", "linux": "7f454c46", "darwin": "cffaedfe"}[plat[0]]
                 exp_top, exp_sub = (set(), set(want)) if use_sub else (set(want), set())
-                flags = " ".join(x for x in ("-goos " + j["flags"][0] if j["flags"][0] else "", "-goarch " + j["flags"][1] if j["flags"][1] else "") if x)
+                flags = " ".join(x for x in ("-goos " + cflags[0] if cflags[0] else "", "-goarch " + cflags[1] if cflags[1] else "") if x)
                 if o["files"] is None or set(o["files"]) != exp_top or set(o["subfiles"]) != exp_sub:
                     return at + "-compile %s for %s/%s compiled %s of the directory and %s of magefiles/, the property sentence says %s of the %s" % (
                         flags, plat[0], plat[1], o["files"], o["subfiles"], sorted(want), where), items
                 if not (o["magic"] or "").startswith(magic):
                     return at + "-compile %s produced a file starting with %s (expected %s)" % (flags, o["magic"], magic), items
-                items.append((top, sub, bool(o["subfiles"]) and not o["files"], o["subfiles"] if use_sub else o["files"], top_named))
+                if "listed" in o and o["listed"] != sorted(want.values()):
+                    return at + "the binary produced by -compile %s lists %s, the magefiles as they are now %s define %s" % (flags, o["listed"], sorted(want), sorted(want.values())), items
+                items.append((top, sub, bool(o["subfiles"]) and not o["files"], o["subfiles"] if use_sub else o["files"], top_named, cflags))
                 continue
             if not want:
                 # neither the directory nor a magefiles subdirectory provides a magefile: mage must say so
@@ -843,7 +925,7 @@ exec go "$@"
                 if sub is not None and not use_sub and not o["warn"]:
                     return at + "no warning although both the directory and its magefiles subdirectory hold magefiles", items
                 d = sub if use_sub else top
-                items.append((top, sub, use_sub, sorted(f["name"] for f in d["files"] if f["ident"].lower() in o["targets"]), top_named))
+                items.append((top, sub, use_sub, sorted(f["name"] for f in d["files"] if f["ident"].lower() in o["targets"]), top_named, cflags))
             elif o["wd"] != os.path.realpath(res["proj"]):
                 return at + "target ran in %s, expected the %s %s" % (o["wd"], "parent of the magefiles directory" if use_sub else "directory", res["proj"]), items
         return None, items
@@ -855,8 +937,8 @@ exec go "$@"
         if "history" in j:
             continue
         if j["kind"] == "compile":
-            j["history"] = []
-        elif j["kind"] == "links":
+            j["history"] = [{"name": "compile", "what": "compile"}]
+        elif j["kind"] in ("links", "parent"):
             j["history"] = [{"name": "list", "what": "list"}, {"name": "run", "what": "run"}, {"name": "run-again-hashfast", "what": "run", "env": HF}]
         elif j["kind"] != "layout":
             j["history"] = [{"name": "list", "what": "list"}, {"name": "run", "what": "run"}]
@@ -885,7 +967,7 @@ exec go "$@"
     for j, res in zip(jobs, results):
         ctx.add("e2e_" + j["kind"])
         bad, items = judge(j, res)
-        case = {"e2e": {k: j[k] for k in ("kind", "top", "sub", "env", "plat", "flags", "history", "mutations", "links", "via", "top_named", "gocmd", "goplan") if k in j}, "observed": res["steps"], "project": res["proj"],
+        case = {"e2e": {k: j[k] for k in ("kind", "top", "sub", "env", "plat", "flags", "history", "mutations", "links", "via", "top_named", "gocmd", "goplan", "extras") if k in j}, "observed": res["steps"], "project": res["proj"],
                 "repo": REPO}
         if bad:
             # a deterministic defect shows again in a fresh copy of the project (new directory, new cache); a one-off does not
@@ -900,12 +982,12 @@ exec go "$@"
                 unconfirmed.append({"clause": bad, "case": case})
                 ctx.log("UNCONFIRMED end-to-end deviation (not reproduced in 2 fresh repetitions): " + bad)
             continue
-        for top, sub, used_sub, names, top_named in items:
+        for top, sub, used_sub, names, top_named, cflags in items:
             ditems.append("{| d_top := %s; d_sub := %s; d_has_sub := %s; d_top_named := %s; d_hostos := %s; d_hostarch := %s; d_cgo := false; d_release := %s; d_tool := %s; "
                           "d_goos := %s; d_goarch := %s; d_obs := (%s, Some %s) |}" % (
                               coq_list([file_coq(f) for f in top["files"]]), coq_list([file_coq(f) for f in (sub or {"files": []})["files"]]),
                               coq_bool(sub is not None), coq_bool(top_named), coq_str(host[0]), coq_str(host[1]), coq_list([coq_str(t) for t in release]),
-                              coq_list([coq_str(t) for t in tooltags]), coq_str(j["flags"][0]), coq_str(j["flags"][1]), coq_bool(used_sub),
+                              coq_list([coq_str(t) for t in tooltags]), coq_str(cflags[0]), coq_str(cflags[1]), coq_bool(used_sub),
                               coq_list([coq_str(n) for n in sorted(names, key=lambda s: s.encode())])))
             dmeta.append(case)
     if unconfirmed:
